@@ -1053,6 +1053,18 @@ fn run_signal(tape: &mut Tape, which: &str, verbose: bool) -> Outcome {
     let mut joins = vec![];
     let mut n = 0u32;
     let mut obs: Vec<u64> = vec![];
+    // a timer armed an hour ahead sits in the loop: every wait is then bounded by its deadline,
+    // which is far beyond the horizon, and must behave exactly like the unbounded wait
+    let with_timer = choose_free(2) == 1;
+    if with_timer {
+        out.decoded.push("a timer armed 1 h ahead is inserted".into());
+        el.handle()
+            .insert_source(calloop::timer::Timer::from_duration(Duration::from_secs(3600)), |_, _, n: &mut u32| {
+                *n += 1000;
+                calloop::timer::TimeoutAction::Drop
+            })
+            .expect("insert timer");
+    }
     match which {
         // thread B calls wakeup() at any point; the loop's single dispatch(None) must return
         "wakeup" => {
@@ -1069,6 +1081,7 @@ fn run_signal(tape: &mut Tape, which: &str, verbose: bool) -> Outcome {
                 }
             }));
             let mut returned = 0u32;
+            let mut spun = false;
             let want = if variant >= 2 { 2 } else { 1 };
             {
                 // stamp the moment each wait returns
@@ -1083,9 +1096,17 @@ fn run_signal(tape: &mut Tape, which: &str, verbose: bool) -> Outcome {
                 if sched::is_over() {
                     break;
                 }
-                if let Err(e) = el.dispatch(None, &mut n) {
-                    err = Some(format!("{e}"));
-                    break;
+                match std::panic::catch_unwind(std::panic::AssertUnwindSafe(|| el.dispatch(None, &mut n))) {
+                    Ok(Ok(())) => {}
+                    Ok(Err(e)) => {
+                        err = Some(format!("{e}"));
+                        break;
+                    }
+                    Err(p) if sched::is_spin_panic(&*p) => {
+                        spun = true;
+                        break;
+                    }
+                    Err(p) => std::panic::resume_unwind(p),
                 }
                 if sched::is_over() {
                     break;
@@ -1105,6 +1126,14 @@ fn run_signal(tape: &mut Tape, which: &str, verbose: bool) -> Outcome {
             let wakeups = l.iter().filter(|e| e.1 == "wakeup.end").count() as u32;
             // each dispatch(None) needs a wakeup; with one wakeup the first dispatch must return.
             // (variant 2 asks for two dispatches with a single wakeup: the second legitimately blocks)
+            if spun {
+                out.violations.push(viol(
+                    &["C11", "C12"],
+                    "wait-loop-spinning",
+                    &[("variant", variant.to_string()), ("with_timer", with_timer.to_string())],
+                    format!("dispatch(None) went back to waiting instead of returning and never came out of its wait loop once nothing could wake it any more ({}); log={l:?}", sched::SPIN_MSG),
+                ));
+            }
             if returned == 0 && wakeups >= 1 {
                 out.violations.push(viol(
                     &["C11"],
@@ -1188,17 +1217,31 @@ fn run_signal(tape: &mut Tape, which: &str, verbose: bool) -> Outcome {
             let lg = log.clone();
             let sig2 = signal.clone();
             let mut iters = 0u32;
-            let r = el.run(None, &mut n, |_| {
-                iters += 1;
-                lg.lock().unwrap().push((stamp(), "iteration"));
-                if variant == 2 && iters == 2 {
-                    sig2.stop();
+            let mut spun = false;
+            let r = match std::panic::catch_unwind(std::panic::AssertUnwindSafe(|| {
+                el.run(None, &mut n, |_| {
+                    iters += 1;
+                    lg.lock().unwrap().push((stamp(), "iteration"));
+                    if variant == 2 && iters == 2 {
+                        sig2.stop();
+                    }
+                    if iters > 12 {
+                        // horizon: stop the experiment
+                        sig2.stop();
+                    }
+                })
+            })) {
+                Ok(r) => r,
+                Err(p) if sched::is_spin_panic(&*p) => {
+                    spun = true;
+                    Ok(())
                 }
-                if iters > 12 {
-                    // horizon: stop the experiment
-                    sig2.stop();
-                }
-            });
+                Err(p) => std::panic::resume_unwind(p),
+            };
+            if spun {
+                out.violations.push(viol(&["C11", "C12"], "wait-loop-spinning", &[("variant", format!("run{variant}")), ("with_timer", with_timer.to_string())],
+                    format!("run(None) never came out of its wait loop once nothing could wake it any more ({})", sched::SPIN_MSG)));
+            }
             let returned = !sched::is_over();
             if returned {
                 log.lock().unwrap().push((stamp(), "run.returned"));
@@ -1349,15 +1392,47 @@ fn run_signal(tape: &mut Tape, which: &str, verbose: bool) -> Outcome {
             }));
             let mut iters = 0u32;
             let sig2 = signal.clone();
-            let r = el.block_on(fut, &mut n, |_| {
-                iters += 1;
-                if iters > 12 {
-                    sig2.stop();
+            let mut spun = false;
+            let r = match std::panic::catch_unwind(std::panic::AssertUnwindSafe(|| {
+                el.block_on(fut, &mut n, |_| {
+                    iters += 1;
+                    if iters > 12 {
+                        sig2.stop();
+                    }
+                })
+            })) {
+                Ok(r) => r,
+                Err(p) if sched::is_spin_panic(&*p) => {
+                    spun = true;
+                    Ok(None)
                 }
-            });
+                Err(p) => std::panic::resume_unwind(p),
+            };
+            if spun {
+                out.violations.push(viol(&["C11", "C12"], "wait-loop-spinning", &[("variant", format!("block_on{variant}")), ("with_timer", with_timer.to_string())],
+                    format!("block_on never came out of its wait loop once nothing could wake it any more ({})", sched::SPIN_MSG)));
+            }
             let returned = !sched::is_over();
             if returned {
                 log.lock().unwrap().push((stamp(), "block_on.returned"));
+            }
+            // a second block_on on the same loop (nobody requests a stop in these variants): its
+            // future is ready at once and must be polled initially like the first one
+            let mut second: Option<Result<Option<u32>, String>> = None;
+            if returned && matches!(variant, 0 | 1 | 4) && matches!(r, Ok(Some(_))) {
+                let mut it2 = 0u32;
+                let sig3 = signal.clone();
+                let r2 = el.block_on(async { 9u32 }, &mut n, |_| {
+                    it2 += 1;
+                    if it2 > 12 {
+                        sig3.stop();
+                    }
+                });
+                if !sched::is_over() {
+                    second = Some(r2.map_err(|e| format!("{e}")));
+                } else {
+                    second = Some(Err("never returned".into()));
+                }
             }
             sched::main_done();
             let (t, trace, blocked, steps, _cap) = sched::end();
@@ -1425,6 +1500,18 @@ fn run_signal(tape: &mut Tape, which: &str, verbose: bool) -> Outcome {
                     ));
                 }
             }
+            if let Some(s) = &second {
+                out.clauses.push("block-on-again");
+                if *s != Ok(Some(9)) {
+                    out.violations.push(viol(
+                        &["C11"],
+                        "block_on-second-call",
+                        &[("variant", variant.to_string())],
+                        format!("a second block_on on the same loop, with a future that is ready at once, gave {s:?} instead of Some(9) (loop blocked={blocked:?})"),
+                    ));
+                }
+            }
+            obs.push(second.is_some() as u64);
             obs.push(iters as u64);
             obs.push(matches!(r, Ok(Some(_))) as u64);
             obs.push(p.len() as u64);
@@ -1673,7 +1760,7 @@ pub fn run(args: &Args) -> Option<Report> {
         max_depth: 0,
         shard: args.shard,
         shard_depth: args.opt_u("sharddepth", 3) as usize,
-        wall_cap_s: args.opt_u("wall", if quick { 35 } else { 600 }) as f64,
+        wall_cap_s: args.opt_u("wall", if quick { 120 } else { 600 }) as f64,
         exec_cap: args.opt_u("execs", u64::MAX / 2),
         prune: false,
         n_samples: 3,
